@@ -18,6 +18,7 @@ import (
 	"go.uber.org/zap/zapcore"
 
 	"verifsim/core"
+	_ "verifsim/h/ids"
 	_ "verifsim/h/kvs"
 	_ "verifsim/h/master"
 	_ "verifsim/h/pipe"
